@@ -7,6 +7,8 @@ NOTE = ("verdicts are z3 4.8.12 / z3 5.1.0 / cvc5 1.0 answers over the symgo SSA
         "every bound (lengths, unwinding, allocation, shapes) is listed per obligation in the evidence and checked, not assumed; "
         "translator validated per run by replaying reachability witnesses natively and in concrete mode; ")
 CLAIMED = {
+ "C03": ("hash-tree crash consistency on the real AHtree code: for every crash point between the appendable operations of a workload of n appends (sync thresholds 1..2/3, optional explicit syncs) and every combination of which unsynced writes reached each of the three logs (plus a torn last commit entry), reopening succeeds, keeps every entry covered by a completed sync and serves only roots/payloads of the appended sequence",
+         "ONLY the hash tree: recovery of the whole store (store.OpenWith), the commit-step fsync ordering of ImmuStore.sync, the index, repeated crashes and concurrent committers are outside the claim; crash model and granularity are listed in the evidence", "DESIGN.md §4 C03"),
  "C04": ("what reaches the index: for every bulk of committed transactions within the bounds (bulk size, entries per tx, symbolic keys and non-indexable flags) the plain indexer hands the tree exactly one (key, tx id) per indexable entry, in order, with intact key content, and only advances the logical time when nothing is indexable",
          "tx reader, semaphore, watchers and the tree are stubs/recorders; mapped and injective indexes, deleted/expired filters, the asynchronous indexer and restart are outside the claim", "DESIGN.md §4 C04"),
  "C06": ("the sequential mechanism behind conditional writes only: a write carrying preconditions (must exist / must not exist / not modified after tx) is admitted iff every precondition holds on the index state it is evaluated on, for every symbolic state and precondition list within the bounds; malformed preconditions are rejected",
